@@ -703,7 +703,8 @@ def chk_reserialize(net, entry, s):
         # hierarchical_key / private_key / public_key / address are switched off on this network object
         # (Groestlcoin without its hash package): re-parse with the entry point that produced the object
         if entry in ("hierarchical_key", "private_key", "public_key", "address", "bip32_seed", "electrum_seed",
-                     "electrum_prv", "electrum_pub", "secret_exponent", "public_pair", "sec"):
+                     "electrum_prv", "electrum_pub", "secret_exponent", "public_pair", "sec", "script", "payable",
+                     "secret", "__call__"):
             return None
         nat = entry
     for e2 in dict.fromkeys([nat] + ([entry] if entry in DISPATCHERS else [])):
@@ -866,6 +867,11 @@ def prop_cases(rng, tier):
                 continue
             seen.add(d)
             yield _pc("refuse", nm, payload=d.hex())
+            if len(d) == 78:
+                for e in B58_KIND_ENTRIES[3:]:
+                    pre = getattr(net.parse, PREFIX_ATTR[e])
+                    if pre is not None and d.startswith(pre):
+                        yield from text_checks(nm, e, s)
             if rng.random() < (0.04 if not thorough else 0.1):
                 for e in ("hierarchical_key", "private_key", "address", "secret", "__call__"):
                     yield from text_checks(nm, e, s)
@@ -898,6 +904,10 @@ def prop_cases(rng, tier):
     for s in electrum_seed_texts(rng, 2 if not thorough else 20):
         for e in ("electrum_seed", "hierarchical_key"):
             yield from text_checks("btc", e, s)
+    for nm, _ in NETS:
+        for e in UNSUPPORTED:
+            for s in ("", "abc", "P:\ud800", "1" * 50):
+                yield _pc("total", nm, entry=e, text=u32(s).hex())
 
 
 # ---------------------------------------------------------------------------------------------------------------
